@@ -19,6 +19,7 @@ import (
 	"net/http"
 	"net/http/httptest"
 	"os"
+	"runtime"
 	"strconv"
 	"strings"
 	"sync"
@@ -41,13 +42,14 @@ type recorder struct {
 	body      string
 	hops      []string      // Location of the i-th answer while i < len(hops)
 	hopStatus int           // the 3xx status of those answers
+	cut       int           // see body.Cut (applies to the final answer)
 	arrived   chan struct{} // non-nil: the first request signals here and then waits for the client to go away
 }
 
 func (r *recorder) reset(status int, body string) {
 	r.mu.Lock()
 	r.events, r.requests, r.status, r.body = nil, nil, status, body
-	r.hops, r.hopStatus, r.arrived = nil, 0, nil
+	r.hops, r.hopStatus, r.arrived, r.cut = nil, 0, nil, 0
 	r.mu.Unlock()
 }
 
@@ -57,7 +59,7 @@ func (r *recorder) ServeHTTP(w http.ResponseWriter, q *http.Request) {
 	r.requests = append(r.requests, request{q.Method, "http://" + q.Host + q.RequestURI})
 	status, body := r.status, r.body
 	n := len(r.requests)
-	hops, hopStatus, arrived := r.hops, r.hopStatus, r.arrived
+	hops, hopStatus, arrived, cut := r.hops, r.hopStatus, r.arrived, r.cut
 	r.mu.Unlock()
 	if arrived != nil && n == 1 {
 		close(arrived)
@@ -71,6 +73,24 @@ func (r *recorder) ServeHTTP(w http.ResponseWriter, q *http.Request) {
 		w.Header().Set("Location", hops[n-1])
 		w.WriteHeader(hopStatus)
 		return
+	}
+	if cut > 0 {
+		// fault: the answer's body is cut short (a proxy or the peer going away mid-body)
+		if hj, ok := w.(http.Hijacker); ok {
+			if conn, buf, err := hj.Hijack(); err == nil {
+				half := body[:len(body)/2]
+				if cut == 1 {
+					fmt.Fprintf(buf, "HTTP/1.1 %d %s\r\nContent-Type: text/xml\r\nContent-Length: %d\r\nConnection: close\r\n\r\n%s",
+						status, http.StatusText(status), len(body)+64, half)
+				} else {
+					fmt.Fprintf(buf, "HTTP/1.1 %d %s\r\nContent-Type: text/xml\r\nTransfer-Encoding: chunked\r\nConnection: close\r\n\r\n%x\r\n%s",
+						status, http.StatusText(status), len(half)+64, half)
+				}
+				buf.Flush()
+				conn.Close()
+				return
+			}
+		}
 	}
 	w.Header().Set("Content-Type", "text/xml")
 	w.WriteHeader(status)
@@ -144,6 +164,7 @@ func (c call) hasNOpts() bool { return c.Code == 12 || c.Code == 13 }
 func (c call) hasBounds() bool { return c.Code == 7 || c.Code == 12 }
 
 type body struct {
+	Cut     int // 0 whole body; 1 the server sends half of it under a larger Content-Length and closes; 2 half of it in a chunk that never completes
 	Kind    int // 0 malformed, 1 osm, 2 osmChange
 	Els     []el
 	C, M, D []el
@@ -252,13 +273,18 @@ func errClass(err error) int64 {
 }
 
 // run performs the call on the real implementation.
+// lastView re-reads the result of the most recent run
+var lastView func() (bool, []el)
+
 func run(ctx context.Context, ds *osmapi.Datasource, c call) (hasData bool, data []el, err error, panicked bool) {
 	defer func() {
 		if r := recover(); r != nil {
 			panicked = true
 			hasData, data, err = false, nil, nil
+			lastView = func() (bool, []el) { return false, nil }
 		}
 	}()
+	lastView = func() (bool, []el) { return false, nil }
 	var fo []osmapi.FeatureOption
 	for _, a := range c.FOpts {
 		t := time.Unix(a.Unix, a.Nsec).In(time.FixedZone("z", a.Zone))
@@ -273,57 +299,80 @@ func run(ctx context.Context, ds *osmapi.Datasource, c call) (hasData bool, data
 		}
 	}
 	bounds := &osm.Bounds{MinLon: c.B[0], MinLat: c.B[1], MaxLon: c.B[2], MaxLat: c.B[3]}
-	node := func(n *osm.Node, e error) {
+	// every result is kept as the implementation returned it; view re-reads it (the harness
+	// re-reads an earlier result after later calls to see whether it was modified)
+	set := func(e error, v func() (bool, []el)) {
 		err = e
-		if n != nil {
-			hasData, data = true, []el{{1, int64(n.ID)}}
-		}
+		lastView = v
+		hasData, data = v()
+	}
+	node := func(n *osm.Node, e error) {
+		set(e, func() (bool, []el) {
+			if n == nil {
+				return false, nil
+			}
+			return true, []el{{1, int64(n.ID)}}
+		})
 	}
 	way := func(n *osm.Way, e error) {
-		err = e
-		if n != nil {
-			hasData, data = true, []el{{2, int64(n.ID)}}
-		}
+		set(e, func() (bool, []el) {
+			if n == nil {
+				return false, nil
+			}
+			return true, []el{{2, int64(n.ID)}}
+		})
 	}
 	rel := func(n *osm.Relation, e error) {
-		err = e
-		if n != nil {
-			hasData, data = true, []el{{3, int64(n.ID)}}
-		}
+		set(e, func() (bool, []el) {
+			if n == nil {
+				return false, nil
+			}
+			return true, []el{{3, int64(n.ID)}}
+		})
 	}
 	nodes := func(l osm.Nodes, e error) {
-		err = e
-		hasData = e == nil
-		for _, n := range l {
-			data = append(data, el{1, int64(n.ID)})
-		}
+		set(e, func() (bool, []el) {
+			var d []el
+			for _, n := range l {
+				d = append(d, el{1, int64(n.ID)})
+			}
+			return e == nil, d
+		})
 	}
 	ways := func(l osm.Ways, e error) {
-		err = e
-		hasData = e == nil
-		for _, n := range l {
-			data = append(data, el{2, int64(n.ID)})
-		}
+		set(e, func() (bool, []el) {
+			var d []el
+			for _, n := range l {
+				d = append(d, el{2, int64(n.ID)})
+			}
+			return e == nil, d
+		})
 	}
 	rels := func(l osm.Relations, e error) {
-		err = e
-		hasData = e == nil
-		for _, n := range l {
-			data = append(data, el{3, int64(n.ID)})
-		}
+		set(e, func() (bool, []el) {
+			var d []el
+			for _, n := range l {
+				d = append(d, el{3, int64(n.ID)})
+			}
+			return e == nil, d
+		})
 	}
 	notes := func(l osm.Notes, e error) {
-		err = e
-		hasData = e == nil
-		for _, n := range l {
-			data = append(data, el{5, int64(n.ID)})
-		}
+		set(e, func() (bool, []el) {
+			var d []el
+			for _, n := range l {
+				d = append(d, el{5, int64(n.ID)})
+			}
+			return e == nil, d
+		})
 	}
 	whole := func(o *osm.OSM, e error) {
-		err = e
-		if o != nil {
-			hasData, data = true, osmEls(o, 0)
-		}
+		set(e, func() (bool, []el) {
+			if o == nil {
+				return false, nil
+			}
+			return true, osmEls(o, 0)
+		})
 	}
 	ids := c.IDs
 	switch c.Code {
@@ -396,39 +445,50 @@ func run(ctx context.Context, ds *osmapi.Datasource, c call) (hasData bool, data
 		whole(ds.Map(ctx, bounds, fo...))
 	case 8, 9:
 		var cs *osm.Changeset
+		var e error
 		if c.Code == 8 {
-			cs, err = ds.Changeset(ctx, osm.ChangesetID(c.ID))
+			cs, e = ds.Changeset(ctx, osm.ChangesetID(c.ID))
 		} else {
-			cs, err = ds.ChangesetWithDiscussion(ctx, osm.ChangesetID(c.ID))
+			cs, e = ds.ChangesetWithDiscussion(ctx, osm.ChangesetID(c.ID))
 		}
-		if cs != nil {
-			hasData, data = true, []el{{4, int64(cs.ID)}}
-		}
+		set(e, func() (bool, []el) {
+			if cs == nil {
+				return false, nil
+			}
+			return true, []el{{4, int64(cs.ID)}}
+		})
 	case 10:
-		var ch *osm.Change
-		ch, err = ds.ChangesetDownload(ctx, osm.ChangesetID(c.ID))
-		if ch != nil {
-			hasData = true
-			data = append(data, osmEls(ch.Create, 10)...)
-			data = append(data, osmEls(ch.Modify, 20)...)
-			data = append(data, osmEls(ch.Delete, 30)...)
-		}
+		ch, e := ds.ChangesetDownload(ctx, osm.ChangesetID(c.ID))
+		set(e, func() (bool, []el) {
+			if ch == nil {
+				return false, nil
+			}
+			var d []el
+			d = append(d, osmEls(ch.Create, 10)...)
+			d = append(d, osmEls(ch.Modify, 20)...)
+			d = append(d, osmEls(ch.Delete, 30)...)
+			return true, d
+		})
 	case 11:
-		var n *osm.Note
-		n, err = ds.Note(ctx, osm.NoteID(c.ID))
-		if n != nil {
-			hasData, data = true, []el{{5, int64(n.ID)}}
-		}
+		n, e := ds.Note(ctx, osm.NoteID(c.ID))
+		set(e, func() (bool, []el) {
+			if n == nil {
+				return false, nil
+			}
+			return true, []el{{5, int64(n.ID)}}
+		})
 	case 12:
 		notes(ds.Notes(ctx, bounds, no...))
 	case 13:
 		notes(ds.NotesSearch(ctx, c.Q, no...))
 	case 14:
-		var u *osm.User
-		u, err = ds.User(ctx, osm.UserID(c.ID))
-		if u != nil {
-			hasData, data = true, []el{{6, int64(u.ID)}}
-		}
+		u, e := ds.User(ctx, osm.UserID(c.ID))
+		set(e, func() (bool, []el) {
+			if u == nil {
+				return false, nil
+			}
+			return true, []el{{6, int64(u.ID)}}
+		})
 	}
 	return
 }
@@ -539,6 +599,10 @@ type env struct {
 }
 
 func putBody(c *wire.Case, b body) {
+	if b.Cut > 0 {
+		c.Int(0) // for model and specification a body cut short is an unreadable body
+		return
+	}
 	c.Int(int64(b.Kind))
 	switch b.Kind {
 	case 1:
@@ -567,11 +631,12 @@ func (e *env) doCase(class, base string, lim int, k call, status int, b body) (*
 	return e.doCaseW(class, base, plain(lim), k, status, b)
 }
 
-func (e *env) doCaseW(class, base string, w world, k call, status int, b body) (*wire.Case, observed) {
+// perform runs one call of the real implementation in the given world and records what happened
+func (e *env) perform(base string, w world, k call, status int, b body) observed {
 	lim := w.Lim
 	e.rec.reset(status, b.xml())
 	e.rec.mu.Lock()
-	e.rec.hops, e.rec.hopStatus = w.Hops, w.HopStatus
+	e.rec.hops, e.rec.hopStatus, e.rec.cut = w.Hops, w.HopStatus, b.Cut
 	var arrived chan struct{}
 	if w.Ctx == 2 {
 		arrived = make(chan struct{})
@@ -608,14 +673,73 @@ func (e *env) doCaseW(class, base string, w world, k call, status int, b body) (
 	if err != nil {
 		ob.ErrText = err.Error()
 	}
+	return ob
+}
+
+func (e *env) doCaseW(class, base string, w world, k call, status int, b body) (*wire.Case, observed) {
+	ob := e.perform(base, w, k, status, b)
 	c := &wire.Case{Class: class}
 	encodeCase(c, base, w, k, status, b, ob)
 	c.OracleFail = goOracle(base, w, k, status, b, ob)
+	c.Desc = describe(base, w, k, status, b, ob)
+	return c, ob
+}
+
+// doSeq: two calls in one process; the first result is kept as returned and re-read after the
+// second call (a result must stay what the server answered to ITS call).  Token layout:
+// tag 2, base, limiter, call1 status1 body1 observed1, call2 status2 body2 observed2,
+// has_data and data of the first result as re-read after the second call.
+func (e *env) doSeq(class, base string, lim int, k1 call, b1 body, k2 call, b2 body, attempts int) (*wire.Case, observed, observed, []el) {
+	var ob1, ob2 observed
+	var afterHas bool
+	var after []el
+	for a := 0; a < attempts; a++ {
+		ob1 = e.perform(base, plain(lim), k1, 200, b1)
+		first := lastView
+		ob2 = e.perform(base, plain(lim), k2, 200, b2)
+		afterHas, after = first()
+		if afterHas != ob1.HasData || !sameEls(after, ob1.Data) {
+			break // keep the deviating attempt
+		}
+	}
+	c := &wire.Case{Class: class}
+	encodeSeq(c, base, lim, k1, b1, ob1, k2, b2, ob2, afterHas, after)
+	if msg := goOracle(base, plain(lim), k1, 200, b1, ob1); msg != "" {
+		c.OracleFail = "first call: " + msg
+	} else if msg := goOracle(base, plain(lim), k2, 200, b2, ob2); msg != "" {
+		c.OracleFail = "second call: " + msg
+	} else if afterHas != ob1.HasData || !sameEls(after, ob1.Data) {
+		c.OracleFail = fmt.Sprintf("the first call returned %v; after the second call the same result reads %v", ob1.Data, after)
+	}
+	c.Desc = map[string]interface{}{
+		"first_call":  describe(base, plain(lim), k1, 200, b1, ob1),
+		"second_call": describe(base, plain(lim), k2, 200, b2, ob2),
+		"first_result_reread_after_second_call(kind,id)": after, "first_result_still_non_nil": afterHas,
+	}
+	return c, ob1, ob2, after
+}
+
+func encodeSeq(c *wire.Case, base string, lim int, k1 call, b1 body, ob1 observed, k2 call, b2 body, ob2 observed, afterHas bool, after []el) {
+	c.Int(2).Str(base).Int(int64(lim))
+	putCall(c, k1)
+	c.Int(200)
+	putBody(c, b1)
+	putObserved(c, ob1)
+	putCall(c, k2)
+	c.Int(200)
+	putBody(c, b2)
+	putObserved(c, ob2)
+	c.Bool(afterHas)
+	putEls(c, after)
+}
+
+func describe(base string, w world, k call, status int, b body, ob observed) map[string]interface{} {
+	lim := w.Lim
 	desc := map[string]interface{}{
 		"base_url": base, "limiter": []string{"none", "ok", "fails"}[lim], "call": k.name(),
 		"context": []string{"live", "cancelled before the call", "cancelled while the request is in flight"}[w.Ctx],
 		"client_follows_redirects": w.Follow, "redirect_locations": w.Hops, "redirect_status": w.HopStatus,
-		"status": status, "body": b.xml(),
+		"status": status, "body": b.xml(), "body_cut_short(0 no,1 content-length,2 chunk)": b.Cut,
 		"observed": map[string]interface{}{"events(1=wait,2=request)": ob.Events, "requests": ob.Requests, "error_class": ob.Class,
 			"error": ob.ErrText, "not_found": ob.NotFound, "has_data": ob.HasData, "data(kind,id)": ob.Data, "panicked": ob.Panicked},
 	}
@@ -647,8 +771,7 @@ func (e *env) doCaseW(class, base string, w world, k call, status int, b body) (
 		args["notes_options"] = l
 	}
 	desc["args"] = args
-	c.Desc = desc
-	return c, ob
+	return desc
 }
 
 func fmtG(x float64) string { return fmt.Sprintf("%.17g", x) }
@@ -1127,6 +1250,73 @@ func main() {
 		}
 	}
 
+	// 9. the answer's body is cut short (short of its Content-Length, or inside a chunk): every
+	//    status class keeps its typed error (the body of an error page is irrelevant), a 200
+	//    becomes an ordinary error, never partial data
+	for _, v := range vs {
+		for _, st := range []int{200, 404, 403, 410, 414, 500, 400} {
+			k := randCall(rng, v.code, v.elem)
+			k.NOpts = validOnly(k.NOpts)
+			b := okBody(k)
+			if st == 200 && rng.Intn(2) == 0 {
+				b = randBody(rng, k)
+				if b.Kind == 0 {
+					b = okBody(k)
+				}
+			}
+			b.Cut = 1 + rng.Intn(2)
+			c, ob := e.doCaseW("body-cut", bases[2+rng.Intn(3)], plain(rng.Intn(2)), k, st, b)
+			add(c, ob)
+			w.Count(fmt.Sprintf("cut:%d", b.Cut))
+		}
+	}
+	// 10. sequences: a result must not change when later calls are made.  One P, so that an
+	//     implementation recycling buffers (sync.Pool and the like) meets its own leftovers.
+	{
+		procs := runtime.GOMAXPROCS(1)
+		seqBody := func(k call, n int, idBase int64) body {
+			if k.Code == 10 {
+				return body{Kind: 2, C: []el{{1, idBase + 1}, {2, idBase + 2}}, M: []el{{3, idBase + 3}}, D: []el{{1, idBase + 4}}}
+			}
+			want := k.wantKind()
+			var l []el
+			for i := 0; i < n; i++ {
+				kind := want
+				if kind == 0 {
+					kind = int64(1 + i%3)
+				}
+				l = append(l, el{kind, idBase + int64(i)})
+			}
+			if want != 0 && shapeOne(k) {
+				l = l[:1]
+			}
+			return body{Kind: 1, Els: l}
+		}
+		for i, v := range vs {
+			for rep := 0; rep < 2; rep++ {
+				k1 := randCall(rng, v.code, v.elem)
+				k1.NOpts = validOnly(k1.NOpts)
+				v2 := v
+				if rep == 1 { // another call looking at the same element kind, if there is one
+					for _, cand := range vs {
+						if cand != v && (call{Code: cand.code, Elem: cand.elem}).wantKind() == (call{Code: v.code, Elem: v.elem}).wantKind() && rng.Intn(2) == 0 {
+							v2 = cand
+						}
+					}
+				}
+				k2 := randCall(rng, v2.code, v2.elem)
+				k2.NOpts = validOnly(k2.NOpts)
+				b1 := seqBody(k1, 5, int64(1000*(i+1)))
+				b2 := seqBody(k2, 1+rng.Intn(3), int64(500000+1000*i))
+				c, ob1, ob2, _ := e.doSeq("sequence", bases[2], rng.Intn(2), k1, b1, k2, b2, 6)
+				w.Add(c)
+				w.Count(fmt.Sprintf("error_class:%d", ob1.Class))
+				w.Count(fmt.Sprintf("error_class:%d", ob2.Class))
+			}
+		}
+		runtime.GOMAXPROCS(procs)
+	}
+
 	// canaries: one corrupted observation per observable class; Coq must flag exactly these
 	{
 		mk := func(mut func(ob *observed), k call, st int, lim int) {
@@ -1189,6 +1379,31 @@ func main() {
 		before := plain(1)
 		before.Ctx = 1
 		mkw(func(ob *observed) { ob.Events = append(ob.Events, 2); ob.Requests = append(ob.Requests, request{"GET", "http://osm.test/api/0.6/node/12345?"}) }, before, get, 200)
+		// a truncated 404 reported as an ordinary error; an earlier result that changed
+		mkb := func(mut func(ob *observed), k call, st int, b body) {
+			c, ob := e.doCaseW("", "http://osm.test/api/0.6", plain(0), k, st, b)
+			mut(&ob)
+			c2 := &wire.Case{Canary: 1, Desc: c.Desc}
+			encodeCase(c2, "http://osm.test/api/0.6", plain(0), k, st, b, ob)
+			w.Add(c2)
+		}
+		cutBody := okBody(get)
+		cutBody.Cut = 1
+		mkb(func(ob *observed) { ob.Class, ob.NotFound = 6, false }, get, 404, cutBody)
+		mkb(func(ob *observed) { ob.Class, ob.HasData, ob.Data = 0, true, []el{{1, 77}} }, get, 200, cutBody)
+		{
+			k1 := call{Code: 3, Elem: 0, ID: 5}
+			b1 := body{Kind: 1, Els: []el{{1, 5}, {1, 6}, {1, 7}}}
+			b2 := body{Kind: 1, Els: []el{{1, 8}}}
+			c, ob1, ob2, after := e.doSeq("", "http://osm.test/api/0.6", 0, k1, b1, k1, b2, 1)
+			bad := append([]el(nil), after...)
+			if len(bad) > 0 {
+				bad[0].ID = 8
+			}
+			c2 := &wire.Case{Canary: 1, Desc: c.Desc}
+			encodeSeq(c2, "http://osm.test/api/0.6", 0, k1, b1, ob1, k1, b2, ob2, true, bad)
+			w.Add(c2)
+		}
 		during := plain(0)
 		during.Ctx = 2
 		mkw(func(ob *observed) { ob.Class = 0; ob.HasData = true; ob.Data = []el{{1, 77}} }, during, get, 200)
@@ -1209,4 +1424,13 @@ func validOnly(l []nOpt) []nOpt {
 		r = append(r, o)
 	}
 	return r
+}
+
+// single-element calls
+func shapeOne(k call) bool {
+	switch k.Code {
+	case 0, 2, 8, 9, 11, 14:
+		return true
+	}
+	return false
 }
